@@ -191,6 +191,8 @@ pub struct SettingsSpec {
     /// reduced ("almost") tolerances: 0 default; 1 gap abs 1e-2 / rel 1e-10; 2 gap abs 1e-10 / rel 1e-2;
     /// 3 feas 1e-2; 4 infeas abs 1e-2 / rel 1e-10; 5 infeas abs 1e-10 / rel 1e-2
     pub reduced_profile: u8,
+    /// every setting that the verbose header prints takes a distinct non-default value
+    pub odd_print_values: bool,
 }
 
 impl Default for SettingsSpec {
@@ -210,6 +212,7 @@ impl Default for SettingsSpec {
             max_threads: 0,
             chordal: false,
             reduced_profile: 0,
+            odd_print_values: false,
         }
     }
 }
@@ -256,6 +259,22 @@ impl SettingsSpec {
         s.linesearch_backtrack_step = self.linesearch_backtrack_step;
         s.max_threads = self.max_threads;
         s.chordal_decomposition_enable = self.chordal;
+        if self.odd_print_values {
+            s.tol_feas = 2e-8;
+            s.tol_gap_abs = 3e-7;
+            s.tol_gap_rel = 5e-6;
+            s.static_regularization_constant = 3e-8;
+            s.static_regularization_proportional = 7e-31;
+            s.dynamic_regularization_eps = 2e-13;
+            s.dynamic_regularization_delta = 4e-7;
+            s.iterative_refinement_reltol = 2e-13;
+            s.iterative_refinement_abstol = 3e-12;
+            s.iterative_refinement_max_iter = 7;
+            s.iterative_refinement_stop_ratio = 4.0;
+            s.equilibrate_min_scaling = 2e-4;
+            s.equilibrate_max_scaling = 3e4;
+            s.time_limit = 123.5;
+        }
         match self.reduced_profile {
             1 => {
                 s.reduced_tol_gap_abs = 1e-2;
@@ -286,7 +305,7 @@ impl SettingsSpec {
             "tol_profile": (["default 1e-8","loose 1e-5","tight 1e-10","gap 1e-3 / feas 1e-8","feas 1e-3 / gap 1e-8"][self.tol_profile as usize]),
             "max_step_fraction": self.max_step_fraction, "equilibrate_max_iter": self.equilibrate_max_iter,
             "max_iter": self.max_iter, "linesearch_backtrack_step": self.linesearch_backtrack_step,
-            "max_threads": self.max_threads, "chordal_decomposition_enable": self.chordal,
+            "max_threads": self.max_threads, "chordal_decomposition_enable": self.chordal, "every_printed_setting_non_default": self.odd_print_values,
             "reduced_tolerances": (["default","gap abs 1e-2 / rel 1e-10","gap abs 1e-10 / rel 1e-2","feas 1e-2","infeas abs 1e-2 / rel 1e-10","infeas abs 1e-10 / rel 1e-2"][self.reduced_profile as usize]),
         })
     }
